@@ -10,4 +10,5 @@ W01  == {<<0, 0>>, <<1, 1>>}
 W012 == {<<0, 0>>, <<1, 1>>, <<0, 2>>, <<1, 15>>}
 NoDev == {}
 AsImpl == {"CompletedWfNotCountedAtBarrier"}
+AsImpl2 == {"EndpgmReleaseKeepsInternal"}
 =============================================================================
